@@ -84,7 +84,10 @@ func (con *Connection) DecryptedRead(b []byte) (int, error) {
 					// Ignore timeout error #77
 				} else {
 					log.Debug.Println("Decryption failed:", err)
-					err = con.connection.Close()
+					// Nothing which follows a frame which failed to
+					// decrypt must be delivered
+					con.received = nil
+					con.connection.Close()
 				}
 				return 0, err
 			}
